@@ -37,6 +37,10 @@ TRUSTED_EXTRA = ["'the spectrum of a direct sum is the union of the spectra of t
                  "not proved in Lean"]
 
 
+class _Skip(Exception):
+    pass
+
+
 def gen_cases(seed, chunk, n, tier):
     import symmray as sr
 
@@ -118,16 +122,36 @@ def gen_cases(seed, chunk, n, tier):
                 elif abs(float(sr.linalg.norm(x)) - float(x.norm())) > 0:
                     orc = "linalg.norm differs from the method"
             else:
-                ix = gen.rand_index(rng, sym, max_charges=3, max_size=3)
-                a = gen.rand_array(rng, sym, indices=[ix, ix.conj()], static=static, dtype=dtype, keep=1.0,
-                                   charge=gen.py_combine(sym, []))
+                if rng.random() < 0.5:
+                    ix = gen.rand_index(rng, sym, max_charges=3, max_size=3)
+                    a = gen.rand_array(rng, sym, indices=[ix, ix.conj()], static=static, dtype=dtype, keep=1.0,
+                                       charge=gen.py_combine(sym, []))
+                else:
+                    # not block diagonal in the charge labels: arbitrary charge / equal directions; all
+                    # charge sizes equal so that every block is square
+                    d = rng.randint(1, 3)
+                    i1 = sr.BlockIndex({c: d for c in gen.rand_index(rng, sym).chargemap}, dual=rng.random() < 0.5)
+                    i2 = sr.BlockIndex({c: d for c in gen.rand_index(rng, sym).chargemap}, dual=rng.random() < 0.5)
+                    a = gen.rand_array(rng, sym, indices=[i1, i2], static=static, dtype=dtype, keep=1.0)
                 for s, b in list(a.blocks.items()):
                     b = np.array(b)
                     a.blocks[s] = (b + 8 * np.eye(b.shape[0])).astype(dtype)
                 rhs = gen.rand_array(rng, sym, indices=[a.indices[0]], static=static, dtype=dtype, keep=1.0)
                 x = a
                 sol = sr.linalg.solve(a, rhs)
-                ref = np.linalg.solve(oracle.dense(a), oracle.dense(rhs))
+                Da = oracle.dense(a)
+                if Da.shape[0] != Da.shape[1] or abs(np.linalg.det(Da)) < 1e-6:
+                    # only the stored sectors are solved for: compare on the dense system restricted to them
+                    # through the residual a·x = b on the rows that a reaches
+                    got = np.zeros(a.indices[1].size_total, dtype="complex128")
+                    for c, st, d in oracle.axis_layout(a.indices[1]):
+                        if (c,) in sol.blocks:
+                            got[st:st + d] = sol.blocks[(c,)]
+                    rows = np.abs(Da).sum(axis=1) > 0
+                    if float(np.abs((Da @ got - oracle.dense(rhs))[rows]).max(initial=0.0)) > 1e-8:
+                        orc = "a·x differs from b on the rows that a reaches (dense residual)"
+                    raise _Skip()
+                ref = np.linalg.solve(Da, oracle.dense(rhs))
                 # solution lives on a.indices[1].conj(), dense order = sorted charges of that index
                 got = np.zeros(a.indices[1].size_total, dtype="complex128")
                 for c, st, d in oracle.axis_layout(a.indices[1]):
@@ -137,6 +161,8 @@ def gen_cases(seed, chunk, n, tier):
                     orc = "the solution differs from numpy.linalg.solve on the dense system"
                 nontrivial = len(a.blocks) >= 2
                 env = {"x": a}
+        except _Skip:
+            pass
         except np.linalg.LinAlgError:
             continue
         except Exception as e:  # noqa
